@@ -210,6 +210,8 @@ CHECKS = {
         "assumptions": ["band edges allow |T|*2^-50 + 2ns of float64 rounding"],
         "jobs": [
             {"run": "^TestC10ExpiryBounds$", "n": {"quick": 30000, "thorough": 200000}},
+            # tens of thousands of jittered writes into one long-lived instance, every expiry inside the band
+            {"run": "^TestC10LongLived$", "n": {"quick": 60, "thorough": 600}},
             # entries stored through the Failover frontend: the TTL of the final store and the stored expiry
             {"run": "^TestC06Failover$", "name": "C06Failover-for-C10", "n": {"quick": 5000, "thorough": 30000}},
             # a value built through Failover stays fresh for the TTL it was built with (stable values, ObserveMutability)
